@@ -747,6 +747,10 @@ TOP:
 			}
 		case method != nil:
 			args := root.formReflectArgs(ov, vars, field)
+			if err = checkReflectArgs(method, args); err != nil {
+				ea = append(ea, resWarn(field.line, field.col, "%T.%s %s", obj, field.Name, err))
+				return
+			}
 			mva := fd.method.Call(args)
 			switch len(mva) {
 			case 1:
@@ -770,13 +774,42 @@ func (root *Root) formReflectArgs(ov reflect.Value, vars map[string]interface{},
 	// Build the args by combining provided args and variable values as
 	// appropriate.
 	for _, av := range field.Args {
-		if vr, ok := av.Value.(Var); ok && vars != nil {
-			args = append(args, reflect.ValueOf(vars[string(vr)]))
-		} else {
+		switch {
+		case av == nil:
+			// A declared argument that was not given.
+			args = append(args, reflect.Value{})
+		case vars != nil:
+			if vr, ok := av.Value.(Var); ok {
+				args = append(args, reflect.ValueOf(vars[string(vr)]))
+			} else {
+				args = append(args, reflect.ValueOf(av.Value))
+			}
+		default:
 			args = append(args, reflect.ValueOf(av.Value))
 		}
 	}
 	return
+}
+
+// checkReflectArgs makes sure a method can be called with the arguments
+// formed from the request. reflect.Value.Call panics otherwise.
+func checkReflectArgs(method *reflect.Value, args []reflect.Value) error {
+	mt := method.Type()
+	if mt.IsVariadic() {
+		return nil
+	}
+	if mt.NumIn() != len(args) {
+		return fmt.Errorf("takes %d arguments, %d given", mt.NumIn()-1, len(args)-1)
+	}
+	for i, a := range args {
+		if !a.IsValid() {
+			return fmt.Errorf("argument %d is missing or null", i)
+		}
+		if !a.Type().AssignableTo(mt.In(i)) {
+			return fmt.Errorf("argument %d, a %s can not be used as a %s", i, a.Type(), mt.In(i))
+		}
+	}
+	return nil
 }
 
 func (root *Root) resolveInline(
